@@ -1,5 +1,6 @@
 """L6 FIELD-FLOW, L7 WAV-ASSEMBLY, L8 WINDOW-FORMULAS, B5/B6 handler maps  (C01, C02, C03, C04, C20)."""
 import ast
+from ..core.loader import clone as _clone
 
 from ..core.loader import AnalysisError, dotted, norm, own_nodes, where, enclosing_class
 from ..core.layout import Layouts, Unknown, Struct as LStruct, BitsS
@@ -144,21 +145,129 @@ def rule_L6(ctx):
                "" if ok else f"receives {g.key() if g is not None else None} under [{p.cond_key()[:120]}]", inst=f"AkaiSample.sample_rate:{p.cond_key()[:80]}")
     dr = ctx.const(AK + "data_types.py", "DEFAULT_SAMPLE_RATE", "L6")
     ctx.ob("L6", sa, "DEFAULT_SAMPLE_RATE is 44100", dr == 44100, f"{dr}", inst="DEFAULT_SAMPLE_RATE")
-    # (d) active-loop filter: every table entry is visited, kept iff duration > 0, only when loop_type != INACTIVE
-    fors = [n for n in own_nodes(sa) if isinstance(n, ast.For) and "loop_data_table" in norm(n.iter)]
-    ok = len(fors) == 1
-    det = "the loop over loop_data_table was not found (a prefix-only or filtered traversal hides later active loops)"
-    if ok:
-        f = fors[0]
-        ok = norm(f.iter) in ("sample_header.loop_data_table", "obj.loop_data_table") and not any(isinstance(n, (ast.Break, ast.Return)) for n in ast.walk(f)) and not f.orelse
-        apps = [n for n in ast.walk(f) if isinstance(n, ast.Call) and isinstance(n.func, ast.Attribute) and n.func.attr == "append"]
-        ok = ok and len(apps) == 1 and norm(apps[0].args[0]) == f.target.id
-        guard = getattr(getattr(apps[0], "_parent", None), "_parent", None) if apps else None
-        ok = ok and isinstance(guard, ast.If) and norm(guard.test) in ("loop_duration > 0", f"{f.target.id}.loop_duration > 0") and not guard.orelse
-        outer = getattr(f, "_parent", None)
-        ok = ok and isinstance(outer, ast.If) and norm(outer.test) in ("sample_header.loop_type != AkaiLoopType.LOOP_INACTIVE", "obj.loop_type != AkaiLoopType.LOOP_INACTIVE")
-        det = "" if ok else "the active-loop selection is not `for every entry: keep iff loop_duration > 0` under `loop_type != LOOP_INACTIVE`"
-    ctx.ob("L6", fors[0] if fors else sa, "every active loop (duration > 0) of the 8-entry table is kept, in stored order", ok, det, inst="active-loops")
+    # (d) active-loop filter: every table entry is visited, kept iff duration > 0, only when loop_type != INACTIVE.
+    # Decided per return path on the value that reaches AkaiSample(loop_entries=...): a filtered traversal of the whole table
+    # (comprehension or append loop, temporaries substituted) when looping is on, the empty list when it is off.
+    import copy as _copy
+    from .sem import _SubstEnv, _Rename, bool_eval
+    from ..core.terms import Evaluator as _Ev
+
+    def _filter_of_comp(v):
+        if isinstance(v, ast.Call) and isinstance(v.func, ast.Name) and v.func.id == "list" and len(v.args) == 1 and not v.keywords:
+            v = v.args[0]
+        if not isinstance(v, (ast.ListComp, ast.GeneratorExp)) or len(v.generators) != 1 or not isinstance(v.generators[0].target, ast.Name):
+            return None
+        g = v.generators[0]
+        ren = _Rename({g.target.id: "_c0"})
+        conds = sorted(_Ev().cond(ren.visit(_clone(c))) for c in g.ifs)
+        return ("filter", norm(g.iter), tuple(conds), norm(ren.visit(_clone(v.elt))))
+
+    def _filter_of_loop(f, name):
+        """for v in S: [plain temporaries]; if C: name.append(E)   (no break / return / else)"""
+        if not isinstance(f.target, ast.Name) or f.orelse or any(isinstance(n, (ast.Break, ast.Return, ast.Continue)) for n in ast.walk(f)):
+            return None
+        env, out = {}, []
+
+        def run(stmts, conds):
+            for st in stmts:
+                if isinstance(st, ast.Assign) and len(st.targets) == 1 and isinstance(st.targets[0], ast.Name) and st.targets[0].id != name:
+                    env[st.targets[0].id] = _SubstEnv(env).visit(_clone(st.value))
+                elif isinstance(st, ast.If) and not st.orelse:
+                    if run(st.body, conds + [_SubstEnv(env).visit(_clone(st.test))]) is False:
+                        return False
+                elif isinstance(st, ast.Expr) and isinstance(st.value, ast.Call) and isinstance(st.value.func, ast.Attribute) and st.value.func.attr == "append" \
+                        and norm(st.value.func.value) == name and len(st.value.args) == 1:
+                    out.append((conds, _SubstEnv(env).visit(_clone(st.value.args[0]))))
+                elif isinstance(st, ast.Pass):
+                    continue
+                else:
+                    return False
+            return True
+
+        if run(f.body, []) is False or len(out) != 1:
+            return None
+        ren = _Rename({f.target.id: "_c0"})
+        conds = sorted(_Ev().cond(ren.visit(_clone(c))) for c in out[0][0])
+        return ("filter", norm(f.iter), tuple(conds), norm(ren.visit(out[0][1])))
+
+    hdr = None
+    ok, det, seen_act = True, "", set()
+    n_paths = 0
+    for p in prs:
+        cs = list(calls_on(p, name="AkaiSample"))
+        if len(cs) != 1:
+            continue
+        call = cs[0][0]
+        arg = next((k.value for k in call.keywords if k.arg == "loop_entries"), call.args[fields.index("loop_entries")] if len(call.args) > fields.index("loop_entries") else None)
+        if not isinstance(arg, ast.Name):
+            v0 = _filter_of_comp(arg) if arg is not None else None
+            if v0 is None:
+                ok, det = False, f"loop_entries argument is `{norm(arg) if arg is not None else None}`"
+                continue
+            lname = None
+        else:
+            lname = arg.id
+        n_paths += 1
+        value, env, tests, done = None, {}, [], set()
+        summarised = []
+        for s_ in p.steps:
+            st = s_.ast
+            if st is None or any(any(x is st for x in ast.walk(f_)) and st is not f_ for f_ in summarised):
+                continue
+            if s_.kind == "stmt" and isinstance(st, (ast.Assign, ast.AnnAssign)) and getattr(st, "value", None) is not None:
+                tg = st.targets[0] if isinstance(st, ast.Assign) else st.target
+                if isinstance(tg, ast.Name) and tg.id == lname:
+                    if (isinstance(st.value, ast.List) and not st.value.elts) or norm(st.value) == "list()":
+                        value = ("empty",)
+                    else:
+                        value = _filter_of_comp(_SubstEnv(env).visit(_clone(st.value))) or ("?", norm(st.value))
+                elif isinstance(tg, ast.Name):
+                    env[tg.id] = _SubstEnv(env).visit(_clone(st.value))
+            elif s_.kind == "for" and isinstance(st, ast.For) and lname is not None and any(
+                    isinstance(n, ast.Attribute) and n.attr in ("append", "extend", "insert") and norm(n.value) == lname for n in ast.walk(st)):
+                if id(st) in done:
+                    continue
+                done.add(id(st))
+                summarised.append(st)
+                fl = _filter_of_loop(st, lname)
+                if fl is None or value != ("empty",):
+                    value = ("?", f"loop at line {getattr(st, '_orig_lineno', st.lineno)}")
+                else:
+                    value = ("filter", norm(_SubstEnv(env).visit(_clone(st.iter))), fl[2], fl[3])
+            elif s_.kind == "test" and s_.label in ("true", "false") and hasattr(st, "test") and not isinstance(st, (ast.For,)):
+                tests.append((_SubstEnv(env).visit(_clone(st.test)), s_.label == "true"))
+        if lname is None:
+            value = v0
+
+        def atom(node):
+            if isinstance(node, ast.Compare) and len(node.ops) == 1 and norm(node.comparators[0]) == "AkaiLoopType.LOOP_INACTIVE" \
+                    and norm(node.left).endswith(".loop_type"):
+                if isinstance(node.ops[0], (ast.NotEq, ast.IsNot)):
+                    return "A"
+                if isinstance(node.ops[0], (ast.Eq, ast.Is)):
+                    return "notA"
+            return None
+
+        active = None
+        for tst, taken in tests:
+            for val in (True, False):
+                v_ = bool_eval(tst, lambda n, val=val: (val if atom(n) == "A" else (not val)) if atom(n) else None)
+                if v_ is not None and v_ != "undef" and v_ != taken:
+                    # this truth value of "looping is on" contradicts the branch: the other one holds on this path
+                    active = (not val) if active in (None, not val) else "contradiction"
+        seen_act.add(active)
+        root = norm(sa.args.args[1]) if False else None
+        if active is True:
+            good = value is not None and value[0] == "filter" and value[1].endswith(".loop_data_table") and value[3] == "_c0" \
+                and value[2] in (("_c0.loop_duration > 0",), ("-1 + _c0.loop_duration >= 0",))
+        elif active is False:
+            good = value == ("empty",)
+        else:
+            good = False
+        if not good:
+            ok, det = False, f"looping {'on' if active else 'off' if active is False else 'undecided'}: loop_entries is {value}"
+    ok = ok and n_paths >= 1 and seen_act == {True, False}
+    ctx.ob("L6", sa, "every active loop (duration > 0) of the 8-entry table is kept, in stored order", ok, det or f"cases {seen_act}", inst="active-loops")
     # LoopEntryAdapter
     le = ctx.fn(AK + "sample.py", "LoopEntryAdapter._decode", "L6")
     lcls = prog.klass(AK + "sample.py", "LoopEntry", "L6")
